@@ -273,7 +273,7 @@ func (w *World) computeModInfo() *ModInfo {
 					}
 				}
 				if ci, ok := ins.(ssa.CallInstruction); ok {
-					mi.callEffects(f, ci, add, callees)
+					mi.callEffects(f, ci, add, callees, false)
 				}
 			}
 		}
@@ -388,7 +388,9 @@ func pkgPathOf(f *ssa.Function) string {
 	return ""
 }
 
-func (mi *ModInfo) callEffects(f *ssa.Function, ci ssa.CallInstruction, add func(string), callees map[*ssa.Function]bool) {
+// atSite: the effects are wanted for the state after this very call (objects allocated by the caller
+// count); otherwise for the caller's own effect summary (they do not).
+func (mi *ModInfo) callEffects(f *ssa.Function, ci ssa.CallInstruction, add func(string), callees map[*ssa.Function]bool, atSite bool) {
 	w := mi.w
 	cc := ci.Common()
 	if bi, ok := cc.Value.(*ssa.Builtin); ok {
@@ -446,13 +448,13 @@ func (mi *ModInfo) callEffects(f *ssa.Function, ci ssa.CallInstruction, add func
 	for _, a := range cc.Args {
 		switch t := a.Type().Underlying().(type) {
 		case *types.Pointer:
-			if purePkgs[pp] && pp != "sync/atomic" {
+			if purePkgs[pp] && pp != "sync/atomic" && !ptrWriterPkgs[pp] {
 				continue
 			}
 			if strings.HasPrefix(pp, "sync") && pp != "sync/atomic" {
 				continue // lock objects: own state only
 			}
-			if isLocalAlloc(a) {
+			if isLocalAlloc(a) && !atSite {
 				continue
 			}
 			m := map[string]bool{}
@@ -473,6 +475,18 @@ func (mi *ModInfo) callEffects(f *ssa.Function, ci ssa.CallInstruction, add func
 				}
 			}
 		case *types.Interface:
+			if ptrWriterPkgs[pp] {
+				// a decoder stores through the pointer inside the interface value
+				if mi, ok := a.(*ssa.MakeInterface); ok {
+					if pt, ok := mi.X.Type().Underlying().(*types.Pointer); ok && (atSite || !isLocalAlloc(mi.X)) {
+						m := map[string]bool{}
+						pointeeArrays(pt.Elem(), m)
+						for k := range m {
+							add(k)
+						}
+					}
+				}
+			}
 			if t.NumMethods() == 0 || purePkgs[pp] {
 				continue
 			}
@@ -483,7 +497,7 @@ func (mi *ModInfo) callEffects(f *ssa.Function, ci ssa.CallInstruction, add func
 				}
 			}
 		case *types.Slice:
-			if !purePkgs[pp] && !isLocalAlloc(a) {
+			if (!purePkgs[pp] || sliceWriterPkgs[pp]) && (atSite || !isLocalAlloc(a)) {
 				add(arrElems(t.Elem()))
 			}
 		}
